@@ -27,7 +27,7 @@ Fixpoint hget (k : string) (h : hdrs) : list string :=
   | (k', vs) :: r => if String.eqb k k' then vs else hget k r
   end.
 
-(* net/textproto.CanonicalMIMEHeaderKey on keys made of letters, digits and '-' (the keys the
+(* net/textproto.CanonicalMIMEHeaderKey on keys made of token characters (letters, digits, - _ . ~ …: the keys the
    tie uses): first letter and every letter after '-' upper case, the others lower case.
    http.Header.Set/Add/Get canonicalise their key argument. *)
 Definition up (c : Ascii.ascii) : Ascii.ascii :=
